@@ -28,9 +28,13 @@
 (*   LeaseExpire   the wall clock passes claim_until;                      *)
 (*   WorkerCrash   the worker dies holding a claim; it restarts with a new *)
 (*                 claimOwner (outboxId:ULID made in New);                 *)
-(*   Read1/Read2   GetPart / GetPartIds: first the outbox lookup (one SQL  *)
+(*   Read1/2/3     GetPart / GetPartIds: first the outbox lookup (one SQL  *)
 (*                 snapshot), then - when the lookup does not decide -     *)
-(*                 the inner store, which is outside that snapshot.        *)
+(*                 the inner store, which is outside that snapshot (Read2),*)
+(*                 then the return (Read3): the ORDER of the two reads is  *)
+(*                 part of the model - the outbox view must not be newer   *)
+(*                 than the inner view, or an entry flushed in between is  *)
+(*                 in neither.                                             *)
 (* SQLite gives every transaction a snapshot, so the `!entryExists` retry  *)
 (* and mid-read fallback branches of GetPart / lazyOutboxChunkReadCloser   *)
 (* (statement-level isolation, Postgres) are unreachable here and are not  *)
@@ -234,11 +238,18 @@ Read1(kind, p) ==
   /\ cnt' = [cnt EXCEPT !.reads = @ + 1]
   /\ UNCHANGED <<entries, nextId, committed, inner, pc, held, inc, stale>>
 
+\* the inner store has answered; the result is fixed here (nothing is read afterwards)
 Read2 ==
   /\ rd.st = "inner"
-  /\ rd' = Done(rd.kind, rd.part,
-                IF rd.kind = "get" THEN [q \in Parts |-> IF q = rd.part THEN inner[q] ELSE NoC]
-                ELSE IdsResult(rd.snap, inner), rd.win)
+  /\ rd' = [Done(rd.kind, rd.part,
+                 IF rd.kind = "get" THEN [q \in Parts |-> IF q = rd.part THEN inner[q] ELSE NoC]
+                 ELSE IdsResult(rd.snap, inner), rd.win) EXCEPT !.st = "got"]
+  /\ UNCHANGED <<entries, nextId, committed, inner, pc, held, inc, stale, cnt>>
+
+\* the call returns; whatever the workers did since Read2 cannot change the answer any more
+Read3 ==
+  /\ rd.st = "got"
+  /\ rd' = [rd EXCEPT !.st = "done"]
   /\ UNCHANGED <<entries, nextId, committed, inner, pc, held, inc, stale, cnt>>
 
 \* ------------------------------------------------------------- model checking
@@ -256,7 +267,7 @@ Next ==
                         \/ (cnt.crash < MaxCrashes /\ WorkerCrash(w))
   \/ LeaseExpire
   \/ (cnt.reads < MaxReads /\ \E k \in {"get", "ids"}, p \in Parts : Read1(k, p))
-  \/ Read2
+  \/ Read2 \/ Read3
 
 Spec == Init /\ [][Next]_vars
 \* the version column only grows and influences nothing: model checking identifies states up to it
